@@ -351,7 +351,7 @@ func runC10(col *Collector, tier string, seed int64) {
 		}
 	}
 	total := len(vs) + len(as) + len(us)
-	varsOpsCases(col, rng, map[bool]int{false: 300, true: 6000}[tier == "thorough"])
+	varsOpsCases(col, rng, map[bool]int{false: 300, true: 6000}[tier == "thorough"], "c10-container")
 	for _, taskLevel := range []bool{false, true} {
 		sharedVarCase(col, taskLevel)
 	}
